@@ -111,7 +111,7 @@ struct Gen {
     build_stream(p, sr);
     if (sr.ambiguous_cut) {   // a cut link must keep at least two audio pages, otherwise its start offset is undefined (see StreamRef::ambiguous_cut)
       int li = 0;
-      for (auto &r : p.recs) if (r.type == "link") { int ap = 0; for (auto &pg : sr.ps.pages) if (pg.link == li && !pg.header) ap++; if (r.i("cut") && ap < 2) r.erase("cut"); if (r.i("bs64") && ap < 2) { r.set("pol", 1); r.set("k", 2); } li++; }
+      for (auto &r : p.recs) if (r.type == "link") { int ap = 0; for (auto &pg : sr.ps.pages) if (pg.link == li && !pg.header && pg.completed > 0) ap++; if (r.i("cut") && ap < 2) r.erase("cut"); if (r.i("bs64") && ap < 2) { r.set("pol", 1); r.set("k", 2); } li++; }
       build_stream(p, sr);
     }
     pktb.clear();
